@@ -173,7 +173,7 @@ package xmpp
 // "First registered route" means registration order: a new route goes to the end of the table, the others stay.
 //@ func (*xmpp.Router).NewRoute(r) (res)
 //@   requires r != nil
-//@   ensures [C06.build.route] res != nil && fresh(res) && len(res.matchers) == 0 && res.handler == nil && len(r.routes) == old(len(r.routes)) + 1 && r.routes[old(len(r.routes))] == res && forall(k, 0, old(len(r.routes)), r.routes[k] == old(r.routes[k]))
+//@   ensures [C06.build.route] res != nil && fresh(res) && res.matchers == nil && len(res.matchers) == 0 && res.handler == nil && len(r.routes) == old(len(r.routes)) + 1 && r.routes[old(len(r.routes))] == res && forall(k, 0, old(len(r.routes)), r.routes[k] == old(r.routes[k]))
 //@   assigns r.routes
 //@   elems r.routes
 //@ func (*xmpp.Route).Handler(r, handler) (res)
@@ -184,6 +184,32 @@ package xmpp
 //@   requires r != nil
 //@   ensures [C06.build.handlerfunc] res == r && typeof(r.handler) == HandlerFunc && r.matchers == old(r.matchers)
 //@   assigns r.handler
+//
+//@ func xmpp.NewRouter() (r)
+//@   ensures [C06.newrouter,C07.newrouter] r != nil && fresh(r) && len(r.routes) == 0 && r.IQResultRoutes != nil
+//
+// The adapter from a plain function to a Handler calls the function once, with the same sender and packet.
+//@ event HandlerFuncCalled(s Iface, p Iface)
+//@ func type:xmpp.HandlerFunc(s, p)
+//@   emit HandlerFuncCalled(s, p)
+//@ func (xmpp.HandlerFunc).HandlePacket(f, s, p)
+//@   requires f != nil
+//@   ensures [C06.adapter] count(HandlerFuncCalled) == old(count(HandlerFuncCalled)) + 1 && last(HandlerFuncCalled, 0) == s && last(HandlerFuncCalled, 1) == p
+//@   emits HandlerFuncCalled
+//
+// The two shortcuts register one route at the end of the table: the name matcher and the handler, nothing else.
+//@ func (*xmpp.Router).Handle(r, name, handler) (res)
+//@   requires r != nil
+//@   ensures [C06.build.handle] res != nil && fresh(res) && len(r.routes) == old(len(r.routes)) + 1 && r.routes[old(len(r.routes))] == res && forall(k, 0, old(len(r.routes)), r.routes[k] == old(r.routes[k]))
+//@   ensures [C06.build.handle] len(res.matchers) == 1 && typeof(res.matchers[0]) == nameMatcher && res.matchers[0].(nameMatcher) == lower(name) && res.handler == handler
+//@   assigns r.routes
+//@   elems r.routes
+//@ func (*xmpp.Router).HandleFunc(r, name, f) (res)
+//@   requires r != nil
+//@   ensures [C06.build.handlefunc] res != nil && fresh(res) && len(r.routes) == old(len(r.routes)) + 1 && r.routes[old(len(r.routes))] == res && forall(k, 0, old(len(r.routes)), r.routes[k] == old(r.routes[k]))
+//@   ensures [C06.build.handlefunc] len(res.matchers) == 1 && typeof(res.matchers[0]) == nameMatcher && res.matchers[0].(nameMatcher) == lower(name) && typeof(res.handler) == HandlerFunc
+//@   assigns r.routes
+//@   elems r.routes
 //
 //@ pred wfRoute(r) := r != nil && forall(k, 0, len(r.matchers), r.matchers[k] != nil)
 //@ pred routeAccepts(r, p) := forall(k, 0, len(r.matchers), accepts(r.matchers[k], p))
@@ -323,6 +349,9 @@ package xmpp
 
 // ---------------------------------------------------------------------------
 // C16: component handshake
+//
+//@ func xmpp.NewComponent(opts, r, errorHandler) (c, err)
+//@   ensures [C16.newcomponent] err == nil && c != nil && fresh(c) && c.Secret == opts.Secret && c.Domain == opts.Domain && c.TransportConfiguration.Address == opts.TransportConfiguration.Address && c.router == r
 //
 //@ func (*xmpp.Component).handshake(c, streamId) (digest)
 //@   requires c != nil
@@ -704,7 +733,7 @@ package xmpp
 //@   ensures [C02.decoder.strict] t.isSecure ==> strictDecoder(t.decoder)
 //@   ensures t.Config == old(t.Config)
 //@   assigns t.TLSConfig, t.isSecure, t.conn, t.readWriter, t.decoder
-//@   emits TLSHandshake, HostVerified
+//@   emits TLSHandshake, HostVerified, ReadDeadlineSet
 //
 // Closing the transport closes the socket - whatever becomes of the closing stream tag: a blocked read of the receive
 // loop ends only then (the keepalive relies on it when a ping fails).
@@ -732,7 +761,7 @@ package xmpp
 //@   ensures [C13.startstream.transient] err != nil ==> typeof(err) == ConnError && !err.(ConnError).Permanent
 //@   ensures [C05.transport.nodeadline] count(ReadDeadlineSet) == old(count(ReadDeadlineSet)) || last(ReadDeadlineSet, 1)
 //@   ensures t.isSecure == old(t.isSecure) && t.Config == old(t.Config)
-//@   emits Write, TokenRead, ChanRecv, Select, ConnClosed, Selected, DecodeFailed
+//@   emits Write, TokenRead, ChanRecv, Select, ConnClosed, Selected, DecodeFailed, ReadDeadlineSet
 //
 //@ func (*xmpp.XMPPTransport).Connect(t) (id, err)
 //@   requires t != nil
@@ -746,7 +775,7 @@ package xmpp
 //@   ensures [C05.transport.nodeadline] count(ReadDeadlineSet) == old(count(ReadDeadlineSet)) || last(ReadDeadlineSet, 1)
 //@   ensures t.Config == old(t.Config)
 //@   assigns t.conn, t.closeChan, t.readWriter, t.decoder, t.isSecure
-//@   emits Dialed, Write, TokenRead, ChanRecv, Select, StreamStarted, ConnClosed, Selected, DecodeFailed
+//@   emits Dialed, Write, TokenRead, ChanRecv, Select, StreamStarted, ConnClosed, Selected, DecodeFailed, ReadDeadlineSet
 
 // ---------------------------------------------------------------------------
 // C03 / C04: negotiation steps. Each step leaves s.err == nil only if the server's confirming reply was read; a ghost
@@ -770,6 +799,7 @@ package xmpp
 //@   ensures [C04.tls.request]  count(Write) <= old(count(Write)) + 1 && (count(Write) == old(count(Write)) + 1 ==> old(stanza.tlsOffered(s.Features)) && last(Write, 0) == s.transport && last(Write, 1) == sprintf("<starttls xmlns='urn:ietf:params:xml:ns:xmpp-tls'/>"))
 //@   ensures [C04.tls.order]    count(StartTLSCalled) <= old(count(StartTLSCalled)) + 1 && (count(StartTLSCalled) == old(count(StartTLSCalled)) + 1 ==> last(StartTLSCalled, 0) == s.transport && count(Write) == old(count(Write)) + 1 && count(DecodedElement) == old(count(DecodedElement)) + 1 && last(DecodedElement, 1) && typeof(last(DecodedElement, 0)) == *stanza.TLSProceed && atlast(Write) < atlast(DecodedElement) && atlast(DecodedElement) < atlast(StartTLSCalled))
 //@   ensures [C04.tls.result]   (old(s.err) == nil && s.err == nil && !o.Insecure) ==> count(StartTLSCalled) == old(count(StartTLSCalled)) + 1 && last(StartTLSCalled, 1)
+//@   ensures [C03.tls.enabled.ok,C04.tls.enabled.ok] (s.TlsEnabled && !old(s.TlsEnabled)) ==> (old(s.err) == nil && s.err == nil)
 //@   ensures [C04.tls.enabled]  s.TlsEnabled == (old(s.TlsEnabled) || (count(StartTLSCalled) == old(count(StartTLSCalled)) + 1 && last(StartTLSCalled, 1)))
 //@   ensures s.transport == old(s.transport) && s.Features == old(s.Features)
 //@   assigns s.err, s.TlsEnabled
@@ -818,6 +848,7 @@ package xmpp
 //@   at call auth assert [C04.gate] $s.err != nil || count(SecureAsked) > old(count(SecureAsked)) && last(SecureAsked, 0) == c.transport && (last(SecureAsked, 1) || c.config.Insecure)
 //@   at call auth assert [C03.order.tls,C04.order.tls] ($s.err == nil && count(TlsDone) > old(count(TlsDone))) ==> (count(Restarted) > old(count(Restarted)) && atlast(TlsDone) < atlast(Restarted))
 //@   at call NewConnError assert [C13.session.permanent] $permanent == (count(SecureAsked) > old(count(SecureAsked)) && !last(SecureAsked, 1) && !c.config.Insecure)
+//@   at call auth assert [C03.order.restart] count(Restarted) > old(count(Restarted)) ==> count(TlsDone) > old(count(TlsDone))
 //@   at call bind assert [C03.order.bind] count(AuthConfirmed) == old(count(AuthConfirmed)) + 1 && count(Restarted) > old(count(Restarted)) && atlast(AuthConfirmed) < atlast(Restarted) && count(ResumedOK) == old(count(ResumedOK))
 
 // ---------------------------------------------------------------------------
@@ -1114,6 +1145,15 @@ package xmpp
 //@   emit ClientDisconnect(c)
 //@ func (xmpp.StreamClient).SetHandler(c, handler)
 //@   emit HandlerSet(c, handler)
+// What the interface event HandlerSet stands for in the two implementations: the handler the receive loop will call.
+//@ func (*xmpp.Client).SetHandler(c, handler)
+//@   requires c != nil
+//@   ensures [C13.sethandler] c.Handler == handler
+//@   assigns c.Handler
+//@ func (*xmpp.Component).SetHandler(c, handler)
+//@   requires c != nil
+//@   ensures [C13.sethandler.comp] c.Handler == handler
+//@   assigns c.Handler
 //@ func field:xmpp.StreamManager.PostConnect(s)
 //@   emit PostConnectCalled(s)
 //@ axiom [connerr.direct] forall e Iface :: typeof(e) == ConnError ==> isConnErr(e) && permanentOf(e) == e.(ConnError).Permanent
